@@ -66,15 +66,23 @@ func drawCKKS(r *eng.Rand, idx int, tier string) (ckksCfg, bool) {
 	if cfg.Ring == "ci" {
 		nth *= 2
 	}
-	if r.Bool() {
-		cfg.H = eng.Pick(r, n/2, n/4, 8)
-		if cfg.H > n {
-			cfg.H = n
+	if r.N(4) != 0 {
+		cfg.H = eng.Pick(r, n/4, 16, 8)
+		if cfg.H > n/2 {
+			cfg.H = n / 2
 		}
 	}
 	skip := map[uint64]bool{}
 	if !prec128 {
-		cfg.LogScale = 40 + r.N(11)
+		// deeper chains get larger scales (the worst-case noise bound grows with the degree)
+		lo, hi := 40, 52
+		if cfg.Depth >= 4 {
+			lo = 45
+		}
+		if hi > 56-cfg.Depth {
+			hi = 56 - cfg.Depth
+		}
+		cfg.LogScale = lo + r.N(hi-lo+1)
 		q0bits := float64(cfg.LogScale + cfg.Depth + 4 + r.N(3))
 		if q0bits > 60.5 {
 			q0bits = 60.5
@@ -130,6 +138,9 @@ type ckksJob struct {
 	CoB      bool       `json:"change_of_basis_homomorphic"`
 	Interval [2]float64 `json:"interval"`
 	Pregen   []int      `json:"pregen,omitempty"`
+	// HiPrec: coefficients and interval handed over as 256-bit big.Float (else float64 / complex128, whose
+	// 53-bit mantissa bounds the precision of bignum.Polynomial.Factorize and ChangeOfBasis: PREC64 only)
+	HiPrec bool `json:"hiprec"`
 }
 
 type ckksCtx struct {
@@ -230,6 +241,7 @@ func runCKKS(c *eng.Ctx, cfg ckksCfg) {
 				job.TgtDev = rnd.F64()*2 - 1
 			}
 			job.Complex = cfg.Ring == "std" && basis == "monomial" && rnd.Bool()
+			job.HiPrec = x.lpr == 2 || rnd.Bool()
 			if basis == "chebyshev" {
 				a := math.Round((rnd.F64()*16-8)*64) / 64
 				w := math.Round((0.5+rnd.F64()*8)*64) / 64
@@ -237,9 +249,42 @@ func runCKKS(c *eng.Ctx, cfg ckksCfg) {
 					a, w = -1, 2
 				}
 				job.Interval = [2]float64{a, a + w}
-				job.CoB = job.Level+x.lpr <= maxLevel && rnd.N(3) == 0
+				// the in-tree recipe (Mul by 2/(b-a), Add, Rescale) only rescales correctly when the scalar is
+				// not an integer (ckks.Evaluator.Mul does not scale up by an integer constant)
+				sc := 2 / w
+				job.CoB = job.Level+x.lpr <= maxLevel && rnd.N(3) == 0 && sc != math.Floor(sc)
 			}
 			ckksEvalOnce(c, rnd, x, job, need)
+		}
+		// degree 0: the constant (or a refusal), never a panic
+		{
+			vals := make([]float64, x.slots)
+			pt := ckks.NewPlaintext(x.params, maxLevel)
+			c0 := pickCoeffF(rnd)
+			var res *rlwe.Ciphertext
+			if err := x.ecd.Encode(vals, pt); err == nil {
+				if ct, err := x.enc.EncryptNew(pt); err == nil {
+					c.Distinct(fmt.Sprintf("ckks/degree0/%s/%s", cfg.Ring, basis), true)
+					panicked, pv := eng.Panics(func() {
+						res, err = x.pe.Evaluate(ct, bignum.NewPolynomial(basisOf(basis), []float64{c0}, [2]float64{-1, 1}), x.params.DefaultScale())
+					})
+					c.Eval(1)
+					switch {
+					case panicked:
+						c.Violate("C13|ckks/polynomial.Evaluator.Evaluate|panic|degree-0", fmt.Sprintf("Evaluate(ct, bignum.NewPolynomial(%s, []float64{%v}, ...), scale) panics: %v", basis, c0, pv), cfg)
+					case err != nil:
+						c.Count("errors_observed", 1)
+					default:
+						out := make([]*bignum.Complex, x.slots)
+						if x.ecd.Decode(x.dec.DecryptNew(res), out) == nil {
+							re, _ := out[0][0].Float64()
+							c.Check(math.Abs(re-c0) < math.Exp2(-15), "C13|ckks/polynomial.Evaluator.Evaluate|wrong-value|degree-0", func() string {
+								return fmt.Sprintf("constant polynomial %v: got %v", c0, re)
+							})
+						}
+					}
+				}
+			}
 		}
 		// refusal: fewer levels than documented
 		for _, deg := range []int{1, 2, 3, 4, 5, 8, 9, 16, 31, 32} {
@@ -329,8 +374,17 @@ func ckksEvalOnce(c *eng.Ctx, rnd *eng.Rand, x *ckksCtx, job ckksJob, need int) 
 		var itv interface{}
 		if job.Basis == "chebyshev" {
 			itv = job.Interval
+			if job.HiPrec {
+				itv = &bignum.Interval{A: *new(big.Float).SetPrec(256).SetFloat64(job.Interval[0]), B: *new(big.Float).SetPrec(256).SetFloat64(job.Interval[1])}
+			}
 		}
-		if job.Complex {
+		if job.HiPrec {
+			cs := make([]*bignum.Complex, job.Deg+1)
+			for k := range cs {
+				cs[k] = &bignum.Complex{new(big.Float).SetPrec(256).SetFloat64(real(cplx[i][k])), new(big.Float).SetPrec(256).SetFloat64(imag(cplx[i][k]))}
+			}
+			p = bignum.NewPolynomial(basisOf(job.Basis), cs, itv)
+		} else if job.Complex {
 			p = bignum.NewPolynomial(basisOf(job.Basis), cplx[i], itv)
 		} else {
 			re := make([]float64, job.Deg+1)
